@@ -3,6 +3,8 @@
 // Tier K harness module, child of src/fn_mocker.rs.
 use super::*;
 #[allow(unused_imports)]
+use crate::{call_pattern, debug, error, MockFnInfo};
+#[allow(unused_imports)]
 use crate::alloc::{vec, String, Vec};
 use crate::call_pattern::__verif_call_pattern_h as ph;
 use crate::counter::__verif_counter_h as ch;
